@@ -27,9 +27,24 @@ def load(vendor):
     return out
 
 
+def deepest(e):
+    """the innermost sub-error of a oneOf / anyOf failure (longest instance path; ties: first), to say WHERE the document is wrong"""
+    best = e
+    for sub in (e.context or []):
+        d = deepest(sub)
+        if len(d.absolute_path) > len(best.absolute_path):
+            best = d
+    return best
+
+
 def errors_of(validator, doc, limit=6):
     errs = sorted(validator.iter_errors(doc), key=lambda e: list(map(str, e.absolute_path)))
-    return [{'path': '/'.join(map(str, e.absolute_path)), 'message': e.message[:200], 'validator': e.validator} for e in errs[:limit]]
+    out = []
+    for e in errs[:limit]:
+        d = deepest(e)
+        out.append({'path': '/'.join(map(str, e.absolute_path)), 'message': e.message[:200], 'validator': e.validator,
+                    'deep_path': '/'.join(map(str, d.absolute_path)), 'deep_validator': d.validator, 'deep_message': d.message[:200]})
+    return out
 
 
 def strip_schemas(doc):
